@@ -40,3 +40,163 @@ WITNESSES = [
     dict(id="c10-ok-continue-merge", prop="C10", file=S, expect=None,
          old="        d_blocks = tuple(sorted(d_blocks))\n        if not d_blocks:\n            d_blocks = ('none',)", new="        d_blocks = tuple(sorted(d_blocks))\n        if len(d_blocks) == 0:\n            d_blocks = ('none',)"),
 ]
+
+F = "simplify.py"
+I = "factor_intermediates.py"
+
+# ---------------------------------------------------------------------------- behaviour-preserving edits of new kinds
+WITNESSES += [
+    # for loop -> while loop with an explicit position
+    dict(id="c10-ok-while-loop", prop="C10", file=S, expect=None,
+         old="        t_blocks = []\n        for tensor in term.tensors:\n            if tensor.name != t_name:\n                continue\n",
+         new="        t_blocks = []\n        all_tensors = term.tensors\n        pos = 0\n        while pos < len(all_tensors):\n"
+             "            tensor = all_tensors[pos]\n            pos += 1\n            if tensor.name != t_name:\n                continue\n"),
+    # look before you leap -> try / except KeyError
+    dict(id="c10-ok-eafp", prop="C10", file=S, expect=None,
+         old="        if d_blocks not in ret:\n            ret[d_blocks] = e.Expr(0, **term.assumptions)\n        ret[d_blocks] += term\n",
+         new="        try:\n            ret[d_blocks] += term\n        except KeyError:\n"
+             "            ret[d_blocks] = e.Expr(0, **term.assumptions) + term\n"),
+    # membership test + augmented assignment -> dict.get with default
+    dict(id="c10-ok-dict-get", prop="C10", file=S, expect=None,
+         old="            key = (f\"no_{t_name}\",)\n        if key not in ret:\n            ret[key] = 0\n        ret[key] += term\n",
+         new="            key = (f\"no_{t_name}\",)\n        ret[key] = ret.get(key, 0) + term\n"),
+    # branches swapped, literal-first comparisons, independent statements reordered, set.add -> |=
+    dict(id="c10-ok-branch-order", prop="C10", file=S, expect=None, edits=[
+        ("                if factor == -1:\n                    # looking for antisym: P_pq X = - X -> P_pq X + X = 0?\n"
+         "                    if perm_term.sympy + term.sympy is S.Zero:\n                        continue\n"
+         "                elif factor == 1:\n                    # looking for sym: P_pq X = + X -> P_pq X - X = 0?\n"
+         "                    if perm_term.sympy - term.sympy is S.Zero:\n                        continue\n",
+         "                if 1 == factor:\n                    if perm_term.sympy - term.sympy is S.Zero:\n                        continue\n"
+         "                elif -1 == factor:\n                    if term.sympy + perm_term.sympy is S.Zero:\n                        continue\n"),
+        ("                    removed_terms.add(other_term_i)\n                    found_sym.append((perms, factor))\n",
+         "                    found_sym.append((perms, factor))\n                    removed_terms |= {other_term_i}\n")]),
+    # two sign branches merged through arithmetic with the (validated) factor
+    dict(id="c10-ok-arith-branch-merge", prop="C10", file=Y, expect=None,
+         old="                    if sym_factor == -1:\n                        sum = simplify_terms(\n"
+             "                            perm_term + self._terms[other_term_i]\n                        )\n"
+             "                    # looking for sym: X + (P_pq X) = X + X'\n                    # P_pq X - X' = 0\n"
+             "                    else:  # +1\n                        sum = simplify_terms(\n"
+             "                            perm_term - self._terms[other_term_i]\n                        )\n",
+         new="                    sum = simplify_terms(\n                        perm_term - self._terms[other_term_i] * sym_factor\n"
+             "                    )\n"),
+    # arithmetic spelling and operand order of the zero tests
+    dict(id="c10-ok-negation-spelling", prop="C10", file=O, expect=None,
+         old="            if denom - perm_denom is S.Zero:\n                ret[perms] = factor  # P_pq Denom = Denom -> +1\n"
+             "            elif denom + perm_denom is S.Zero:\n                ret[perms] = factor * -1  # P_pq Denom = -Denom -> -1\n",
+         new="            if perm_denom - denom is S.Zero:\n                ret[perms] = factor  # P_pq Denom = Denom -> +1\n"
+             "            elif perm_denom + denom is S.Zero:\n                ret[perms] = -factor  # P_pq Denom = -Denom -> -1\n"),
+    # generator -> list building helper; commuted sum
+    dict(id="c10-ok-generator-to-list", prop="C10", file=E, expect=None, edits=[
+        ("        def get_perms(*space_perms):\n            for perms in chain.from_iterable(space_perms):\n                yield perms\n"
+         "            if len(space_perms) > 1:  # form the product\n                for perm_tpl in product(*space_perms):\n"
+         "                    yield PermutationProduct(chain.from_iterable(perm_tpl))\n",
+         "        def get_perms(*space_perms):\n            collected = list(chain.from_iterable(space_perms))\n"
+         "            if len(space_perms) > 1:  # form the product\n                for perm_tpl in product(*space_perms):\n"
+         "                    collected.append(\n                        PermutationProduct(chain.from_iterable(perm_tpl))\n                    )\n"
+         "            return collected\n"),
+        ("            if original_term + permuted is S.Zero:\n", "            if permuted + original_term is S.Zero:\n")]),
+    # bound method alias, loop over positions instead of elements
+    dict(id="c10-ok-method-alias", prop="C10", file=S, expect=None, edits=[
+        ("            term: e.Expr = terms[term_i]\n            found_sym = []\n            for perms, factor in symmetry.items():\n"
+         "                # apply the permutations to the current term\n                perm_term = term.permute(*perms)\n",
+         "            term: e.Expr = terms[term_i]\n            found_sym = []\n            apply_to_term = term.permute\n"
+         "            sym_items = list(symmetry.items())\n            for sym_pos in range(len(sym_items)):\n"
+         "                perms, factor = sym_items[sym_pos]\n                # apply the permutations to the current term\n"
+         "                perm_term = apply_to_term(*perms)\n")]),
+    # if/else -> sorted with the same key
+    dict(id="c10-ok-sorted-pair", prop="C10", file=Y, expect=None,
+         old="        if sort_idx_canonical(p) < sort_idx_canonical(q):\n            args = (p, q)\n        else:\n            args = (q, p)\n",
+         new="        args = tuple(sorted((p, q), key=sort_idx_canonical))\n"),
+    # reversed difference (x - y = 0 <=> y - x = 0)
+    dict(id="c10-ok-reversed-difference", prop="C10", file=I, expect=None,
+         old="    difference = remainder - ref_remainder\n", new="    difference = ref_remainder - remainder\n"),
+    # in-place update of the assumptions -> merged dict display
+    dict(id="c10-ok-dict-merge", prop="C10", file=E, expect=None,
+         old="        assumptions = self.assumptions\n        assumptions['target_idx'] = indices\n"
+             "        # create a term obj and use the appropriate indices as target_idx\n"
+             "        new_expr = Expr(self.sympy, **assumptions)\n",
+         new="        # create a term obj and use the appropriate indices as target_idx\n"
+             "        new_expr = Expr(self.sympy, **{**self.assumptions, 'target_idx': indices})\n"),
+    # comprehension with filter -> explicit loop collecting into a list
+    dict(id="c10-ok-filter-loop", prop="C10", file=F, expect=None,
+         old="    filtered = Add(*[term.sympy for term in expr.terms if check_term(term)])\n",
+         new="    kept = []\n    for term in expr.terms:\n        if not check_term(term):\n            continue\n"
+             "        kept.append(term.sympy)\n    filtered = Add(*kept)\n"),
+    # helper method extracted into the class
+    dict(id="c10-ok-extracted-method", prop="C10", file=Y, expect=None, edits=[
+        ("    def probe_symmetry(self, permutations: PermutationProduct,\n                       sym_factor: int) -> dict:\n",
+         "    def _is_own_image(self, term, perm_term, sym_factor: int) -> bool:\n"
+         "        if sym_factor == -1:\n            return perm_term.sympy + term.sympy is S.Zero\n"
+         "        return perm_term.sympy - term.sympy is S.Zero\n\n"
+         "    def probe_symmetry(self, permutations: PermutationProduct,\n                       sym_factor: int) -> dict:\n"),
+        ("                if sym_factor == -1:  # looking for antisym: P_pq X != -X\n"
+         "                    if perm_term.sympy + term.sympy is not S.Zero:\n"
+         "                        relevant_terms.append((term_i, perm_term))\n"
+         "                else:  # looking for sym: P_pq X != X\n"
+         "                    if perm_term.sympy - term.sympy is not S.Zero:\n"
+         "                        relevant_terms.append((term_i, perm_term))\n",
+         "                if not self._is_own_image(term, perm_term, sym_factor):\n"
+         "                    relevant_terms.append((term_i, perm_term))\n")]),
+]
+
+# ---------------------------------------------------------------------------- breaking edits for the new checks
+WITNESSES += [
+    dict(id="c10-key-unsorted", prop="C10", file=S, expect="R10b",
+         old="        key = tuple(sorted(key))  # in case of multiple occurences\n", new="        key = tuple(key)\n"),
+    dict(id="c10-delta-idx-multiplicity", prop="C10", file=S, expect="R10b",
+         old="            \"\".join(str(s) for s in o.idx) for o in term.deltas\n            for _ in range(o.exponent)\n",
+         new="            \"\".join(str(s) for s in o.idx) for o in term.deltas\n"),
+    dict(id="c10-filter-at-least", prop="C10", file=F, expect="R10b",
+         old="            return desired.items() <= available.items()\n",
+         new="            return all(available[t] >= n for t, n in desired.items())\n"),
+    dict(id="c10-filter-multiplicity", prop="C10", file=F, expect="R10b",
+         old="        available = [o.name for o in term.tensors for _ in range(o.exponent)]\n",
+         new="        available = [o.name for o in term.tensors]\n"),
+    dict(id="c10-number-lost", prop="C10", file=S, expect="R10b",
+         old="    if expr.sympy.is_number:\n        return {tuple(): expr}\n", new="    if expr.sympy.is_number:\n        return {}\n"),
+    dict(id="c10-unique-term-lost", prop="C10", file=S, expect="R10b",
+         old="            ret[tuple()] += terms[term_idx_list[0]]\n            continue\n", new="            continue\n"),
+    dict(id="c10-exploit-wrong-factor", prop="C10", file=S, expect=["R10b", "R10c"],
+         old="                    found_sym.append((perms, factor))\n", new="                    found_sym.append((perms, -factor))\n"),
+    dict(id="c10-bks-kept", prop="C10", file=S, expect="R10c",
+         old="        upper, lower = ref_target, tuple()\n        bra_ket_sym = 0\n", new="        upper, lower = ref_target, tuple()\n"),
+    dict(id="c10-spin-split", prop="C10", file=S, expect="R10c",
+         old="                lower_spin = target_spin[len(upper):]\n", new="                lower_spin = target_spin[len(lower):]\n"),
+    dict(id="c10-target-check-removed", prop="C10", file=S, expect="R10c",
+         old="        if sorted_provided_target != ref_target:\n", new="        if False and sorted_provided_target != ref_target:\n"),
+    dict(id="c10-sym-incomplete", prop="C10", file=E, expect="R10c",
+         old="                permutations(pairs, n) for n in range(1, len(idx_list))\n",
+         new="                permutations(pairs, n) for n in range(1, 2)\n"),
+    dict(id="c10-sym-across-spin", prop="C10", file=E, expect="R10c",
+         old="            if (key := s.space_and_spin) not in sorted_idx:\n", new="            if (key := s.space) not in sorted_idx:\n"),
+    dict(id="c10-obj-sym-all-indices", prop="C10", file=E, expect="R10c",
+         old="        return new_expr.terms[0].symmetry(only_target=True)\n", new="        return new_expr.terms[0].symmetry()\n"),
+    dict(id="c10-evaluate-both-slots", prop="C10", file=Y, expect="R10c",
+         old="            tensor = AntiSymmetricTensor(\"x\", tuple(), self.target_indices)\n",
+         new="            tensor = AntiSymmetricTensor(\"x\", self.target_indices,\n                                         self.target_indices)\n"),
+    dict(id="c10-probe-nontarget", prop="C10", file=Y, expect="R10d",
+         old="        if any(s not in target_indices\n               for s in chain.from_iterable(permutations)):\n",
+         new="        if False and any(s not in target_indices\n               for s in chain.from_iterable(permutations)):\n"),
+    dict(id="c10-map-store-key", prop="C10", file=Y, expect="R10d",
+         old="        self._term_map[(tuple(permutations), sym_factor)] = map_contribution\n",
+         new="        self._term_map[(tuple(permutations), -sym_factor)] = map_contribution\n"),
+    dict(id="c10-product-reversed", prop="C10", file=Y, expect="R10d",
+         old="        args = [val for _, val in sorted(splitted.items())]\n        return super().__new__(cls, chain.from_iterable(args))\n",
+         new="        args = [val[::-1] for _, val in sorted(splitted.items())]\n        return super().__new__(cls, chain.from_iterable(args))\n"),
+    dict(id="c10-product-unsorted-groups", prop="C10", file=Y, expect="R10d",
+         old="        args = [val for _, val in sorted(splitted.items())]\n        return super().__new__(cls, chain.from_iterable(args))\n",
+         new="        args = [val for _, val in splitted.items()]\n        return super().__new__(cls, chain.from_iterable(args))\n"),
+    dict(id="c10-denom-invalid-kept", prop="C10", file=O, expect="R10a",
+         old="            if perm_denom is S.Zero and denom is not S.Zero:\n                continue\n\n            if denom - perm_denom is S.Zero:\n",
+         new="            if denom - perm_denom is S.Zero:\n"),
+    dict(id="c10-denom-changed-kept", prop="C10", file=O, expect="R10a",
+         old="            else:  # permutation changes the denominator\n                ret[perms] = None\n",
+         new="            else:  # permutation changes the denominator\n                ret[perms] = factor\n"),
+    dict(id="c10-remainder-sum", prop="C10", file=I, expect="R10a",
+         old="    difference = remainder - ref_remainder\n", new="    difference = remainder + ref_remainder\n"),
+    dict(id="c10-remainder-sign-swapped", prop="C10", file=I, expect="R10a",
+         old="    return 1 if factored[0].sympy is S.Zero else -1\n", new="    return -1 if factored[0].sympy is S.Zero else 1\n"),
+    dict(id="c10-term-sym-relevance", prop="C10", file=Y, expect="R10a",
+         old="                else:  # looking for sym: P_pq X != X\n                    if perm_term.sympy - term.sympy is not S.Zero:\n",
+         new="                else:  # looking for sym: P_pq X != X\n                    if perm_term.sympy + term.sympy is not S.Zero:\n"),
+]
